@@ -25,8 +25,8 @@ CONFIGS = [([1], False), ([1], True), ([2], False), ([2], True), ([1, 2], False)
 
 def run(ctx):
     binary = ctx.go_build("internal/zzverif/c26")
-    g = ctx.dump_graph("DispatchMC", ctx.pick("DispatchMC.cfg", "DispatchMCT.cfg"), workers=8)
-    ctx.neg("DispatchMC", "DispatchNeg.cfg", expect="I_Dispatch", workers=2)
+    g = ctx.dump_graph("DispatchMC", ctx.pick("DispatchMC.cfg", "DispatchMCT.cfg"))
+    ctx.neg("DispatchMC", "DispatchNeg.cfg", expect="I_Dispatch")
     paths = set()
     for label in g.nodes.values():
         paths.add(tuple(parse_tla_state(label, only={"p"})["p"]))
